@@ -23,6 +23,8 @@ for name in sorted(os.listdir(S)):
     m = json.load(open(mp))
     rs = sorted((k, v) for k, v in res.items() if k[0] == name)
     cell = "; ".join(f"{k[1]} ({k[2]}): **{v['verdict']}**" + (f" `{v['signature'].split(' ')[0].replace('signature=', '')}`" if v["verdict"] == "DETECTED" else "") for k, v in rs)
+    if m.get("status_on_current_tree"):
+        cell += " — " + m["status_on_current_tree"]
     out.append(f"| {name} | {m['change']} | {m['needs_to_manifest']} | {cell} |")
 open(os.path.join(S, "README.md"), "w").write("\n".join(out) + "\n")
 print("written", len(out) - 4, "rows")
